@@ -16,3 +16,4 @@ ASSUMPTIONS = ["BinaryIO.tell/seek/readline semantics; re match offsets index th
 
 def run(project, rep):
     rep.run(H.h_rules, project, rep)
+    rep.run(H.b_r9_quote_backrefs, project, rep)
